@@ -109,6 +109,18 @@ def run_generators(needed):
     return infos
 
 
+def check_anchor_pins(pid):
+    """tools/gen_anchors.py: the items (functions, enums, macros) the property's anchors point at, pinned by normal-form hash"""
+    import importlib
+    from rsparse import TieError
+    ga = importlib.import_module('gen_anchors')
+    try:
+        _, info = ga.gen(REPO, {}, pid)
+        return info
+    except TieError as ex:
+        raise CheckFailure('tie', str(ex))
+
+
 # ---------------------------------------------------------------- Coq
 
 def coq_project():
